@@ -219,6 +219,10 @@ fn parse_value(key: &str) -> BigRational {
 
 fn specs(tier: Tier) -> Vec<(usize, usize)> {
     let mut v = Vec::new();
+    // digit budgets around the sizes a buffer is likely to have
+    for l in [40usize, 63, 64, 65, 66, 127, 128, 129, 130, 131, 200, 255, 256, 257] {
+        v.push((l, 12));
+    }
     match tier {
         Tier::Quick => {
             for l in [1usize, 2, 3, 6, 7, 12, 20] {
